@@ -207,6 +207,7 @@ func resolveModule(m *object.Module, attr []string) (*object.Module, bool) {
 		if obj, ok := m.GetAttr(name); ok {
 			if modObj, ok := obj.(*object.Module); ok {
 				result = modObj
+				m = modObj // descend into the nested module
 				continue
 			}
 		}
